@@ -193,6 +193,9 @@ def check(pid, tier, replay=None):
                 ops = lines[lo:lo + i + 1]
                 small = shrink(pid, cls, kind, zline, sizes, ops, pk)
                 sig = None
+                stored = [l.split(' ')[1] for l in small if l.startswith('I ')]
+                if kind == 'bytes' and not artgen.compressible(stored):
+                    sig = 'K1:non-compressible-byte-keys'
                 if pk == 'property':
                     res.violation('%s on %s/%s (history %s, %d ops after shrinking): %s' % (pid, cls, kind, tag, len(small), detail),
                                   {'kind': 'property-on-implementation', 'class': cls, 'kind': kind, 'ops': small, 'detail': detail},
